@@ -166,6 +166,9 @@ func (c *pkGen) genRecv(s *pkSnap) string {
 	case x < 7:
 		to = "bad"
 		c.r.Hit("recv/undecodable-receiver")
+	case x < 14 && strings.HasPrefix(to, "a"):
+		to = "A" + to[1:] // the receiver's bech32 address spelled in upper case
+		c.r.Hit("recv/upper-case-receiver")
 	}
 	memo := "-"
 	switch x := c.g.Intn(100); {
@@ -509,6 +512,14 @@ func (c *pkGen) genGrant(s *pkSnap) string {
 		sv := "0"
 		if c.g.Chance(25) {
 			sv = "1"
+		}
+		// a multi-denom spend limit whose part in an open order's denom is EXACTLY that order's price: fulfilling it
+		// exhausts that denom (sdk.Coins drops the zero entry) while another denom is left; a later order in the
+		// exhausted denom must be refused
+		if o := c.pickOrder(s, true); o != nil && c.h.rname(o.RollappID) == ra && c.g.Chance(35) {
+			ds, minfee, maxp, sv = "*", "0", "-", "0"
+			lim = fmt.Sprintf("d%d*%s+d%d*5000", o.Denom, o.Price, (o.Denom+1)%4)
+			c.r.Hit("grant/multi-denom-limit-exact-in-one-denom")
 		}
 		crits = append(crits, fmt.Sprintf("%s/%s/%s/%s/%s/%s/%s", ra, ds, minfee, maxp, lim, c.rawShare(), sv))
 	}
